@@ -26,6 +26,11 @@ class SemsegTransformWrapper(KDWrapper):
         self.transforms = [object_to_transform(transform) for transform in transforms]
         self.seed = seed
 
+    def _worker_init_fn(self, rank, **kwargs):
+        for transform in self.transforms:
+            if isinstance(transform, KDTransform):
+                transform.worker_init_fn(rank, **kwargs)
+
     @property
     def fused_operations(self):
         return super().fused_operations + [["x", "semseg"]]
